@@ -585,6 +585,14 @@ def compare_fit_results(ctx, case, fa, fb, tag, key, minimizer):
             cond = float(np.linalg.cond(cor[np.ix_(free, free)]))
     except Exception:
         cond = float("inf")
+    # a free parameter with no (finite, positive) uncertainty: the Hessian at the reported point is not positive definite
+    try:
+        _fixed = set(fa._fitter.fixed_parameters)
+    except Exception:
+        _fixed = set()
+    _names = list(fa.parameter_names)
+    if any(sig[i] <= 0 for i in range(len(pa)) if _names[i] not in _fixed):
+        cond = float("inf")
     if not np.isfinite(cond) or cond > 1e4:
         ctx.discard("do_fit-degenerate-minimum-values-not-compared")
         ca, cb = float(fa.cost_function_value), float(fb.cost_function_value)
